@@ -74,6 +74,9 @@ func NewResponseHeader(name string, ref specification.Ref[specification.Header],
 	if err != nil {
 		return zero, nil, fmt.Errorf("new schema: %w", err)
 	}
+	if schema.isRecursive() {
+		return zero, nil, fmt.Errorf("new schema: recursive array schemas are not supported in response headers")
+	}
 	var s interface {
 		GoTypeRender
 		Parser
